@@ -404,3 +404,136 @@ Proof.
   intros [|[|t]] Ht; cbn in Ht; try lia; unfold ce_val, ce_row; cbn -[FR]; rewrite ?E15, ?E2, ?E3, ?E4;
     apply no_underflow_ge1; rewrite Rabs_pos_eq; lra.
 Qed.
+
+(* ======================================================================================================
+   C07 (sparse products), duplicate positions -- package dups.  Append to Props/C07.v.
+   sp_mul_spec / sp_tmul_spec / sp_adjoint / sp_transpose_mul above hold for EVERY well-formed storage: the products are
+   the dense products of the matrix [sp_entry s], whose (i,j) entry is the SUM of the values stored for (i,j)
+   (sp_entry_is_sum; [dvals s i j] = those values in storage order, Proofs/SparseDup.v).  to_dense keeps the LAST stored
+   value (Props/C06.v to_dense_last_duplicate).  Hence: the sparse product equals the product with the dense conversion
+   (the model's own Matrix::multiply applied to to_dense s) for all vectors IFF at every position the duplicates sum to the
+   last one (sp_mul_to_dense_iff, sp_tmul_to_dense_iff); with no position stored twice they do (nodup_first_last_sum,
+   sp_mul_to_dense_nodup; to_dense_entry re-derived); adjointness and the product with the explicit transpose need no
+   condition, and transposition preserves every entry sum (adjoint_with_duplicates).
+   ====================================================================================================== *)
+From Coq Require Import Permutation.
+From OV Require Proofs.Matrix.
+From OV Require Import Proofs.SparseDup Proofs.SparseDupOps Proofs.SparseDupMul Proofs.SparseDupOrder Proofs.SparseDupExamples.
+
+(* the entry the products work with is the SUM of the values stored for the position (the definition of sp_entry, restated through dvals) *)
+Theorem sp_entry_is_sum : forall (A : Arith) (s : sparse A) i j, sp_entry s i j = suml (dvals s i j).
+Proof. intros A s i j. exact (sp_entry_is_sum_lemma s i j). Qed.
+Check sp_entry_is_sum : forall (A : Arith) (s : sparse A) i j, sp_entry s i j = suml (dvals s i j).
+Print Assumptions sp_entry_is_sum.
+Example sp_entry_is_sum_nonvacuous :   (* 2 + 30 + 500 at position (1,1) of dup_s *)
+  length (dvals dup_s 1 1) = 3 /\ flat_q (sp_entry dup_s 1 1) = [2; 532; 1]%Z.
+Proof. split; [reflexivity|vm_compute; reflexivity]. Qed.
+
+(* no position stored twice: at most one value per position, so first = last = sum *)
+Theorem nodup_first_last_sum : forall (A : Arith), RingLaws A -> forall (s : sparse A) i j, wfS s -> NoDupKeys s -> j < sp_cols s ->
+  length (dvals s i j) <= 1 /\ hd (@Arith.zero A) (dvals s i j) = last (dvals s i j) (@Arith.zero A) /\
+  last (dvals s i j) (@Arith.zero A) = sp_entry s i j.
+Proof. intros A RL s i j. exact (nodup_first_last_sum_lemma RL s i j). Qed.
+Check nodup_first_last_sum : forall (A : Arith), RingLaws A -> forall (s : sparse A) i j, wfS s -> NoDupKeys s -> j < sp_cols s ->
+  length (dvals s i j) <= 1 /\ hd (@Arith.zero A) (dvals s i j) = last (dvals s i j) (@Arith.zero A) /\
+  last (dvals s i j) (@Arith.zero A) = sp_entry s i j.
+Print Assumptions nodup_first_last_sum.
+Example nodup_first_last_sum_nonvacuous :
+  RingLaws AQ /\ wfS nd_s /\ NoDupKeys nd_s /\ 1 < sp_cols nd_s /\ length (dvals nd_s 2 1) = 1.
+Proof. split; [exact dup_RingLaws|]. split; [exact nd_s_wf|]. split; [exact nd_s_nodup|]. split; [cbn; lia|reflexivity]. Qed.
+
+(* to_dense_entry (above), re-derived from to_dense_last_duplicate *)
+Theorem to_dense_entry_from_duplicates : forall (A : Arith), RingLaws A -> forall (s : sparse A), wfS s -> NoDupKeys s ->
+  exists D, sp_to_dense s = Ok D /\ rows D = sp_rows s /\ cols D = sp_cols s /\
+    forall i j, i < sp_rows s -> j < sp_cols s -> mget D i j = Ok (sp_entry s i j).
+Proof. intros A RL s. exact (to_dense_entry_rederived_lemma RL s). Qed.
+Check to_dense_entry_from_duplicates : forall (A : Arith), RingLaws A -> forall (s : sparse A), wfS s -> NoDupKeys s ->
+  exists D, sp_to_dense s = Ok D /\ rows D = sp_rows s /\ cols D = sp_cols s /\
+    forall i j, i < sp_rows s -> j < sp_cols s -> mget D i j = Ok (sp_entry s i j).
+Print Assumptions to_dense_entry_from_duplicates.
+Example to_dense_entry_from_duplicates_nonvacuous :
+  RingLaws AQ /\ wfS nd_s /\ NoDupKeys nd_s.
+Proof. split; [exact dup_RingLaws|]. split; [exact nd_s_wf|exact nd_s_nodup]. Qed.
+
+(* multiply = Matrix::multiply of the dense conversion, for all vectors, IFF at every position the stored duplicates sum to the last one *)
+Theorem sp_mul_to_dense_iff : forall (A : Arith), RingLaws A -> forall (s : sparse A), wfS s ->
+  exists D, sp_to_dense s = Ok D /\ rows D = sp_rows s /\ cols D = sp_cols s /\
+    (forall i j, i < sp_rows s -> j < sp_cols s -> mget D i j = Ok (last (dvals s i j) (@Arith.zero A))) /\
+    ((forall x, length x = sp_cols s -> sp_mul s x = multiply D x) <->
+     (forall i j, i < sp_rows s -> j < sp_cols s -> suml (dvals s i j) = last (dvals s i j) (@Arith.zero A))).
+Proof. intros A RL s. exact (sp_mul_to_dense_iff_lemma RL s). Qed.
+Check sp_mul_to_dense_iff : forall (A : Arith), RingLaws A -> forall (s : sparse A), wfS s ->
+  exists D, sp_to_dense s = Ok D /\ rows D = sp_rows s /\ cols D = sp_cols s /\
+    (forall i j, i < sp_rows s -> j < sp_cols s -> mget D i j = Ok (last (dvals s i j) (@Arith.zero A))) /\
+    ((forall x, length x = sp_cols s -> sp_mul s x = multiply D x) <->
+     (forall i j, i < sp_rows s -> j < sp_cols s -> suml (dvals s i j) = last (dvals s i j) (@Arith.zero A))).
+Print Assumptions sp_mul_to_dense_iff.
+Example sp_mul_to_dense_iff_nonvacuous :   (* on dup_s the two products differ: [-11; -1064] against [-11; -1000] *)
+  RingLaws AQ /\ wfS dup_s /\ length dup_x = sp_cols dup_s /\
+  fl_res (fl_list flat_q) (sp_mul dup_s dup_x) <> fl_res (fl_list flat_q) (let* D := sp_to_dense dup_s in multiply D dup_x).
+Proof. split; [exact dup_RingLaws|]. split; [exact dup_s_wf|]. split; [reflexivity|]. vm_compute. discriminate. Qed.
+
+(* transpose_multiply = the transposed dense product of the dense conversion, for all vectors, IFF the same condition holds ([dlast s i j] = last (dvals s i j) (@Arith.zero A); [Matrix.msp r c f D]: D is a well-formed r x c dense matrix with entries f) *)
+Theorem sp_tmul_to_dense_iff : forall (A : Arith), RingLaws A -> forall (s : sparse A), wfS s ->
+  exists D, sp_to_dense s = Ok D /\ Proofs.Matrix.msp (sp_rows s) (sp_cols s) (dlast s) D /\
+    ((forall y, length y = sp_rows s -> sp_tmul s y = Ok (dtmulv (Proofs.Matrix.entry D) (sp_rows s) (sp_cols s) y)) <->
+     (forall i j, i < sp_rows s -> j < sp_cols s -> suml (dvals s i j) = last (dvals s i j) (@Arith.zero A))).
+Proof. intros A RL s. exact (sp_tmul_to_dense_iff_lemma RL s). Qed.
+Check sp_tmul_to_dense_iff : forall (A : Arith), RingLaws A -> forall (s : sparse A), wfS s ->
+  exists D, sp_to_dense s = Ok D /\ Proofs.Matrix.msp (sp_rows s) (sp_cols s) (dlast s) D /\
+    ((forall y, length y = sp_rows s -> sp_tmul s y = Ok (dtmulv (Proofs.Matrix.entry D) (sp_rows s) (sp_cols s) y)) <->
+     (forall i j, i < sp_rows s -> j < sp_cols s -> suml (dvals s i j) = last (dvals s i j) (@Arith.zero A))).
+Print Assumptions sp_tmul_to_dense_iff.
+Example sp_tmul_to_dense_iff_nonvacuous :
+  RingLaws AQ /\ wfS dup_s /\ length dup_y = sp_rows dup_s /\ flat_q (suml (dvals dup_s 1 1)) <> flat_q (last (dvals dup_s 1 1) (@Arith.zero AQ)).
+Proof. split; [exact dup_RingLaws|]. split; [exact dup_s_wf|]. split; [reflexivity|]. vm_compute. discriminate. Qed.
+
+(* DESIGN Appendix E in its original form: with no position stored twice the sparse product IS the dense product of to_dense *)
+Theorem sp_mul_to_dense_nodup : forall (A : Arith), RingLaws A -> forall (s : sparse A) (x : list A), wfS s -> NoDupKeys s -> length x = sp_cols s ->
+  exists D, sp_to_dense s = Ok D /\ sp_mul s x = multiply D x.
+Proof. intros A RL s x. exact (sp_mul_to_dense_nodup_lemma RL s x). Qed.
+Check sp_mul_to_dense_nodup : forall (A : Arith), RingLaws A -> forall (s : sparse A) (x : list A), wfS s -> NoDupKeys s -> length x = sp_cols s ->
+  exists D, sp_to_dense s = Ok D /\ sp_mul s x = multiply D x.
+Print Assumptions sp_mul_to_dense_nodup.
+Example sp_mul_to_dense_nodup_nonvacuous :
+  RingLaws AQ /\ wfS nd_s /\ NoDupKeys nd_s /\ length [q 1 1; q 2 1; q (-3) 1; q 1 2] = sp_cols nd_s.
+Proof. split; [exact dup_RingLaws|]. split; [exact nd_s_wf|]. split; [exact nd_s_nodup|reflexivity]. Qed.
+
+(* adjointness and the explicit transpose with duplicates: no condition; transposition keeps the stored values of every position in order, hence every entry sum *)
+Theorem adjoint_with_duplicates : forall (A : Arith), RingLaws A -> forall (s : sparse A) (x y : list A),
+  wfS s -> length x = sp_cols s -> length y = sp_rows s ->
+  (exists u w d, sp_mul s x = Ok u /\ sp_tmul s y = Ok w /\ dot y u = Ok d /\ dot w x = Ok d) /\
+  (exists s' w, sp_transpose s = Ok s' /\ wfS s' /\ sp_mul s' y = Ok w /\ sp_tmul s y = Ok w /\
+     forall i j, i < sp_rows s -> j < sp_cols s -> dvals s' j i = dvals s i j /\ sp_entry s' j i = sp_entry s i j).
+Proof. intros A RL s x y. exact (adjoint_with_duplicates_lemma RL s x y). Qed.
+Check adjoint_with_duplicates : forall (A : Arith), RingLaws A -> forall (s : sparse A) (x y : list A),
+  wfS s -> length x = sp_cols s -> length y = sp_rows s ->
+  (exists u w d, sp_mul s x = Ok u /\ sp_tmul s y = Ok w /\ dot y u = Ok d /\ dot w x = Ok d) /\
+  (exists s' w, sp_transpose s = Ok s' /\ wfS s' /\ sp_mul s' y = Ok w /\ sp_tmul s y = Ok w /\
+     forall i j, i < sp_rows s -> j < sp_cols s -> dvals s' j i = dvals s i j /\ sp_entry s' j i = sp_entry s i j).
+Print Assumptions adjoint_with_duplicates.
+Example adjoint_with_duplicates_nonvacuous :   (* <y, A x> = <A^T y, x> = -7503 on dup_s *)
+  RingLaws AQ /\ wfS dup_s /\ length dup_x = sp_cols dup_s /\ length dup_y = sp_rows dup_s /\ ~ NoDupKeys dup_s /\
+  fl_res flat_q (let* u := sp_mul dup_s dup_x in dot dup_y u) = [2; -7503; 1]%Z.
+Proof. split; [exact dup_RingLaws|]. split; [exact dup_s_wf|]. split; [reflexivity|]. split; [reflexivity|]. split; [exact dup_s_has_duplicates|]. vm_compute. reflexivity. Qed.
+
+(* the products do not depend on the order of the triplets at all, duplicates or not (lookups and to_dense do: Props/C06.v from_triplets_duplicates) *)
+Theorem from_triplets_products_order_independent : forall (A : Arith), RingLaws A -> forall r c (ts ts' : list (triplet A)),
+  Permutation ts ts' -> (forall t, In t ts -> trow t < r /\ tcol t < c) ->
+  exists s s', sp_from_triplets r c ts = Ok s /\ sp_from_triplets r c ts' = Ok s' /\
+    (forall i j, i < r -> j < c -> sp_entry s i j = sp_entry s' i j) /\
+    (forall x, length x = c -> sp_mul s x = sp_mul s' x) /\
+    (forall y, length y = r -> sp_tmul s y = sp_tmul s' y).
+Proof. intros A RL r c ts ts'. exact (from_triplets_products_order_independent_lemma RL r c ts ts'). Qed.
+Check from_triplets_products_order_independent : forall (A : Arith), RingLaws A -> forall r c (ts ts' : list (triplet A)),
+  Permutation ts ts' -> (forall t, In t ts -> trow t < r /\ tcol t < c) ->
+  exists s s', sp_from_triplets r c ts = Ok s /\ sp_from_triplets r c ts' = Ok s' /\
+    (forall i j, i < r -> j < c -> sp_entry s i j = sp_entry s' i j) /\
+    (forall x, length x = c -> sp_mul s x = sp_mul s' x) /\
+    (forall y, length y = r -> sp_tmul s y = sp_tmul s' y).
+Print Assumptions from_triplets_products_order_independent.
+Example from_triplets_products_order_independent_nonvacuous :   (* the reversed list: get(1,1) changes from 2 to 500, the products do not change *)
+  RingLaws AQ /\ Permutation dup_ts (rev dup_ts) /\ (forall t, In t dup_ts -> trow t < 2 /\ tcol t < 2) /\
+  fl_res (fun o : option AQ => flat_q (oval o)) (let* s := sp_from_triplets 2 2 dup_ts in sp_get s 1 1)
+  <> fl_res (fun o : option AQ => flat_q (oval o)) (let* s := sp_from_triplets 2 2 (rev dup_ts) in sp_get s 1 1).
+Proof. split; [exact dup_RingLaws|]. split; [apply Permutation_rev|]. split; [exact dup_ts_in_range|]. vm_compute. discriminate. Qed.
